@@ -298,9 +298,9 @@ def run_check(prop, tier, cfg):
             rc_final = 2
         # ---- evidence
         cb = {c["harness_id"]: c for c in data.get("cbmc", [])}
-        solver_s = sum((c.get("cbmc_stats", {}).get("runtime_decision_procedure_s") or 0) for c in cb.values())
-        symex_s = sum((c.get("cbmc_stats", {}).get("runtime_symex_s") or 0) for c in cb.values())
-        vccs = sum((c.get("cbmc_stats", {}).get("vccs_generated") or 0) for c in cb.values())
+        solver_s = sum(((c.get("cbmc_stats") or {}).get("runtime_decision_procedure_s") or 0) for c in cb.values())
+        symex_s = sum(((c.get("cbmc_stats") or {}).get("runtime_symex_s") or 0) for c in cb.values())
+        vccs = sum(((c.get("cbmc_stats") or {}).get("vccs_generated") or 0) for c in cb.values())
         samples = []
         for r in results[:4]:
             for c in r.get("checks", []):
